@@ -391,8 +391,12 @@ class TypeGen:
         if mixin is None:
             mixin = r.choice(self.mixins) if r.random() < self.mixin_prob else None
         bases = []
+        cfg = config if config is not None else (self.dc_config_fn(r) if self.dc_config_fn else None)
+        # aliases carried by field metadata of an ancestor survive a Config of the leaf: only where the leaf's own Config keeps
+        # reading and writing consistent (by alias, or names accepted next to aliases)
+        alias_ok = bool(cfg) and (cfg.get("serialize_by_alias") == "True" or cfg.get("allow_deserialization_not_by_alias") == "True")
         if self.allow_inherit and nfields is None and with_defaults and min_required == 0 and r.random() < 0.2:
-            bases, over = self._hierarchy(depth, mixin)
+            bases, over = self._hierarchy(depth, mixin, alias_ok)
             mixin = None            # inherited from the root
             fields.extend(over)
             defaults_started = True
@@ -441,7 +445,6 @@ class TypeGen:
             else:
                 fields.append({"n": "kids", "t": ("seq", r.choice(["List", "list"]), ("self",)), "dmode": "factory", "dseed": 0, "const_default": []})
         d = {"k": "dc", "name": name, "bases": bases, "mixin": mixin, "fields": fields}
-        cfg = config if config is not None else (self.dc_config_fn(r) if self.dc_config_fn else None)
         if cfg:
             cfg = dict(cfg)
             alias_mode = cfg.pop("_aliases", None)
@@ -462,7 +465,7 @@ class TypeGen:
         self.fam.add(d, self.value_maker)
         return ("dc", name)
 
-    def _hierarchy(self, depth, mixin):
+    def _hierarchy(self, depth, mixin, alias_ok=False):
         """ancestors of a dataclass: a root with required and defaulted fields, then a chain of one or two classes or a
         diamond (Left(Root), Right(Root)); every ancestor may re-declare inherited defaulted fields with another default
         (plain or through field()), turn the last required field into a defaulted one, and add defaulted fields of its
@@ -488,6 +491,12 @@ class TypeGen:
                 f["force_field"] = True
             return f
         rfields += [defaulted(f"d{i}") for i in range(r.randint(1, 3))]
+        if alias_ok and r.random() < 0.5:
+            # options carried by the ROOT's declaration of a member (an alias in its field metadata): a later class that
+            # re-declares the member plainly drops them, for itself and for every class below it
+            for f in rfields:
+                if f.get("dmode") and r.random() < 0.6:
+                    f["alias"] = "RM_" + f["n"]
         d = {"k": "dc", "name": root, "bases": [], "mixin": mixin, "fields": rfields}
         if r.random() < 0.3:
             # the ROOT carries a Config of its own (aliases for its members, written by alias): a descendant that declares
